@@ -18,6 +18,7 @@ RULE = ('Hypothesis data sets: 40-200 unsorted abscissae (sometimes with repeate
         'object reports: returned mask and curve must equal the reference (so injected outliers that the procedure rejects end False).  '
         'Non-trivial = >=1 outlier, >=1 zero weight, non-identity permutation, maxiter >= 1, well supported.')
 RULE += '  Also: repeated abscissae, exactly determined fits (one interval, nord or nord+1 good points), zero thresholds, integer y without weights.'
+RULE += ' Round 5: sub-check exact_ties (order 1, integer data: residuals exactly on a limit); bkspace dividing the range exactly.'
 ASSUMPTIONS = ['abscissae may repeat (up to 8 coinciding pairs); each point is judged on its own, so the order among equal x does not matter',
                'if any normalised residual comes within 1e-6 of a rejection limit during the reference run the case is accepted either way',
                'if a rejection pass leaves a knot interval without order+1 good points, or the design matrix has cond > 1e4, only (i) and (ii) are asserted',
